@@ -246,3 +246,73 @@ def decimal_identity(rng, vocab):
     a = term(rng, vocab, 1, "dec")
     b = poly(rng, vocab, 1, 2, "dec")
     return ("=", ("+", a, b), ("+", b, a)) if rng.random() < 0.5 else ("=", ("+", a, b), ("-", ("+", ("+", a, b), b), b))
+
+
+# ------------------------------------------------------------------ points on the solution set of the linear equalities
+def linear_form(t):
+    """(coefficients by fluent, constant) of a tree that is linear in the fluents, else None"""
+    if t[0] == "num":
+        return {}, Fraction(t[1])
+    if t[0] == "fl":
+        return {t[1]: Fraction(1)}, Fraction(0)
+    a, b = linear_form(t[1]), linear_form(t[2])
+    if a is None or b is None:
+        return None
+    (ca, ka), (cb, kb) = a, b
+    if t[0] in "+-":
+        s = 1 if t[0] == "+" else -1
+        out = dict(ca)
+        for f, v in cb.items():
+            out[f] = out.get(f, Fraction(0)) + s * v
+        return out, ka + s * kb
+    if t[0] == "*":
+        if not ca:
+            return {f: ka * v for f, v in cb.items()}, ka * kb
+        if not cb:
+            return {f: kb * v for f, v in ca.items()}, ka * kb
+        return None
+    if cb or kb == 0:
+        return None
+    return {f: v / kb for f, v in ca.items()}, ka / kb
+
+
+def solve_point(rng, fluents, equalities):
+    """a random point of the solution set of the equalities that are linear (exact Gaussian elimination over Q; the free
+    fluents get small random values); None when the linear system has no solution.  Non-linear equalities (the
+    generator only makes identities of that kind) are ignored."""
+    rows = []
+    for c in equalities:
+        lf = linear_form(("-", c[1], c[2]))
+        if lf is None:
+            continue
+        coefs, k = lf
+        rows.append(([coefs.get(f, Fraction(0)) for f in fluents], -k))
+    pivots = {}
+    for coefs, rhs in rows:
+        coefs = list(coefs)
+        for col, (pc, pr) in pivots.items():
+            if coefs[col] != 0:
+                m = coefs[col]
+                coefs = [x - m * y for x, y in zip(coefs, pc)]
+                rhs = rhs - m * pr
+        col = next((i for i, x in enumerate(coefs) if x != 0), None)
+        if col is None:
+            if rhs != 0:
+                return None
+            continue
+        piv = coefs[col]
+        coefs = [x / piv for x in coefs]
+        rhs = rhs / piv
+        for c2 in list(pivots):
+            pc, pr = pivots[c2]
+            if pc[col] != 0:
+                m = pc[col]
+                pivots[c2] = ([x - m * y for x, y in zip(pc, coefs)], pr - m * rhs)
+        pivots[col] = (coefs, rhs)
+    rho = {}
+    for i, f in enumerate(fluents):
+        if i not in pivots:
+            rho[f] = Fraction(rng.randint(-6, 6), rng.choice([1, 1, 2, 2, 3]))
+    for col, (pc, pr) in pivots.items():
+        rho[fluents[col]] = pr - sum(pc[i] * rho[f] for i, f in enumerate(fluents) if i != col and i not in pivots)
+    return rho
